@@ -104,7 +104,7 @@ class _Lock:
         self.f.close()
 
 
-def coq_make(targets, jobs=8, timeout=1500):
+def coq_make(targets, jobs=8, timeout=900):
     """(Re)generate the Makefile from the files present and build the given
     .vo targets with their dependencies.  Full .vo build, never -vos."""
     with _Lock():
@@ -116,8 +116,11 @@ def coq_make(targets, jobs=8, timeout=1500):
                                cwd=COQ, capture_output=True, text=True)
             if p.returncode != 0:
                 raise CoqFailure('coq_makefile', p.stdout + p.stderr)
-        cmd = ['timeout', str(timeout), 'make', f'-j{jobs}', *targets]
-        p = subprocess.run(cmd, cwd=COQ, capture_output=True, text=True)
+        cmd = ['timeout', '-k', '10', str(timeout), 'make', f'-j{jobs}', *targets]
+        p = subprocess.run(cmd, cwd=COQ, capture_output=True, text=True, start_new_session=True)
+        if p.returncode in (124, 137):
+            # make was stopped: stop the compilers it left behind as well
+            subprocess.run(['pkill', '-f', 'coqc .*-R theories BT theories/'], capture_output=True)
         log = p.stdout + p.stderr
         if p.returncode != 0:
             raise CoqFailure('make ' + ' '.join(targets), log)
